@@ -179,13 +179,12 @@ def move_agent(
         action,
     )
 
-    try:
-        obj = state.grid[next_position]
-    except IndexError:
-        pass
-    else:
-        if not obj.blocks_movement:
-            state.agent.position = next_position
+    if not state.grid.area.contains(next_position):
+        return
+
+    obj = state.grid[next_position]
+    if not obj.blocks_movement:
+        state.agent.position = next_position
 
 
 @transition_function_registry.register
